@@ -221,7 +221,6 @@ package workers
 //@   props C02 C03 C05
 //@   requires p.workerCtxCancel != nil
 //@   dyncall workerCtxCancel : cancelFunc
-//@   ghost before call dyn:workerCtxCancel : assert [silently-discarded-before-stop-can-see-them] p.jobsToExecute.num == 0
 //@   modifies p.jobsToExecute.num
 //@   ensures p.jobsToExecute.num == 0
 //@
